@@ -359,10 +359,10 @@ def observed_sites(out: Path) -> Dict[str, Any]:
     if f.exists():
         # the docstring ZChild.run inherits comes from the FIRST interface of allImplementedInterfaces that has run()
         obs["interfaces:alpha.Ma.ZChild.run"] = ["alpha.Ma." + m for m in re.findall(r"Run in the way (I\w+) wants it", f.read_text())[:1]]
-    f = out / "alpha.ma.A.html"
+    f = out / "alpha.A.html"          # alpha/__init__.py re-exports alpha.ma.A through __all__: the class moves
     if f.exists():
         m = re.search(r"Known subclasses:(.*?)</p>", f.read_text(), re.S)
-        obs["subclasses:alpha.ma.A"] = re.findall(r'title="([^"]+)"', m.group(1)) if m else []
+        obs["subclasses:alpha.ma.A"] = re.findall(r'<a [^>]*>([^<]+)</a>', m.group(1)) if m else []
     f = out / "index.html"
     if f.exists():
         m = re.search(r"Or start at one of the root\s+([a-z/]+):", f.read_text())
